@@ -2,7 +2,7 @@
    handler got, and what the handler answered is what the caller's reader saw. The expected observable is
    the identity on the guarded domain (path values non-empty and not dot segments; the generator stays inside it),
    so correspondence and property predicate coincide here; the theorems in Props/Properties_C04.v say why. *)
-From V Require Export Bytes CaseLib HeaderWire.
+From V Require Export Bytes CaseLib HeaderWire MultipartWire.
 
 Definition kv_eqb (a b : bytes * list bytes) : bool :=
   bytes_eqb (fst a) (fst b) && list_eqb bytes_eqb (snd a) (snd b).
@@ -21,7 +21,15 @@ Inductive case :=
 (* one header parameter: declared name, the value the caller set, the line found on the wire for it and the line after
    it, whether the call failed, whether the handler ran, the value the handler got (empty when absent) *)
 | CHdrWire (name v rawline nextline : bytes) (failed ran : bool) (received : bytes)
-| CRoundPar (calls : list (bool * bool * list (bytes * list bytes) * list (bytes * list bytes))).
+| CRoundPar (calls : list (bool * bool * list (bytes * list bytes) * list (bytes * list bytes)))
+(* one multipart request (form field f1, file up): the boundary parameter and the body as the server got them, the
+   header texts by which the two parts are recognised, the two contents the caller supplied, whether the call failed,
+   whether the handler ran, the two contents the handler got (empty when absent) *)
+| CMultipart (boundary doc key_f1 key_up sup_f1 sup_file : bytes) (failed ran : bool) (recv_f1 recv_file : bytes)
+(* the real multipart.Reader on a document the real multipart.Writer rendered from the supplied parts with the given
+   boundary and that was then possibly damaged: the contents of the parts it returned, None = it reported an error *)
+| CMpRead (panicked : bool) (boundary doc : bytes) (damaged : bool) (supplied : list (bytes * bytes))
+          (real : option (list bytes)).
 
 Definition check_case (c : case) : N :=
   match c with
@@ -53,4 +61,25 @@ Definition check_case (c : case) : N :=
     let ok := forallb (fun st => match st with (failed, rest_ok, supplied, received) =>
                                    negb failed && rest_ok && list_eqb kv_eqb supplied received end) calls in
     verdict ok ok
+  | CMultipart boundary doc key_f1 key_up sup_f1 sup_file failed ran recv_f1 recv_file =>
+    let corr :=
+      match mp_parse (length doc) boundary doc with
+      | Some parts =>
+        bytes_eqb doc (mp_render boundary parts) &&                         (* the writer side *)
+        Nat.eqb (length parts) 2 && negb failed && ran &&
+        opt_eqb bytes_eqb (part_content key_f1 parts) (Some recv_f1) &&     (* the reader side *)
+        opt_eqb bytes_eqb (part_content key_up parts) (Some recv_file)
+      | None => failed && negb ran
+      end in
+    let prop := if boundary_ok boundary && no_live_delim boundary sup_f1 && no_live_delim boundary sup_file
+                then negb failed && ran && bytes_eqb recv_f1 sup_f1 && bytes_eqb recv_file sup_file else true in
+    verdict corr prop
+  | CMpRead panicked boundary doc damaged supplied real =>
+    let corr :=
+      negb panicked &&
+      opt_eqb (list_eqb bytes_eqb) (option_map (map snd) (mp_parse (length doc) boundary doc)) real &&
+      (damaged || bytes_eqb doc (mp_render boundary supplied)) in
+    let prop := if negb damaged && boundary_ok boundary && forallb (part_okb_sharp boundary) supplied
+                then opt_eqb (list_eqb bytes_eqb) real (Some (map snd supplied)) else true in
+    verdict corr prop
   end.
